@@ -1616,6 +1616,21 @@ pub fn add_quiet(cases: &mut Vec<Value>, every: usize) {
 /// Order: by bound (deviation count) first; within a bound the small, targeted families (few
 /// cases for their seed/universe/configuration) come before the bulk enumerations, so that a
 /// run cut short by its wall-clock budget loses the tail of the largest family and nothing else.
+/// Copies of every `every`-th history case run on the adversarial device (completions of a burst
+/// of I/O delivered newest first).
+pub fn add_io_reverse(cases: &mut Vec<Value>, every: usize) {
+    let mut extra = vec![];
+    for (i, c) in cases.iter().enumerate() {
+        if i % every != 0 || c.get("ops").is_none() || c.get("cfg").is_none() {
+            continue;
+        }
+        let mut n = c.clone();
+        n["cfg"]["io_reverse"] = json!(true);
+        extra.push(n);
+    }
+    cases.extend(extra);
+}
+
 pub fn sort_by_bound(cases: &mut Vec<Value>) {
     let family = |c: &Value| -> String {
         let h = if c.get("hist").is_some() { &c["hist"] } else { c };
